@@ -8,6 +8,9 @@ def gen_histories(ctx, n, family, label):
     for i in range(n):
         if family == "res":
             resources = [[rng.choice([1, 2, 3, 3]), rng.choice([1, 1, 2, 3]), 0]]
+            if rng.random() < 0.3:
+                # a second resource: processes hold slots of both at once (nested with-blocks), preempted on one of them
+                resources.append([rng.choice([1, 3, 3]), rng.choice([1, 1, 2]), 0])
             kinds = {"sleep": 3, "request": 4, "release": 2, "cancel": 1, "withexit": 2, "ryield": 4, "return": 0.3}
         else:
             kc = rng.choice([4, 4, 5, 6, 6, 7])
